@@ -85,6 +85,12 @@ Inductive ccase :=
    directly parsed values (false where one failed), reparse: Unmarshal(Marshal(v)).Equal(v) *)
 | CVal (t1 : bytes) (v1 : view) (t2 : bytes) (v2 : view) (t3 : bytes) (v3 : view)
        (g_direct : list (outcome value)) (g_via : list (outcome value)) (g_eq : list bool) (g_reparse : list bool)
+(* reuse: text A was decoded first into the same store.Value (mode 0: UnmarshalJSON directly, 1: json.Unmarshal,
+   2: element of the same []Value, 3: entry of the same map[string]Value), then text B resp. C.
+   g_vals = [reused<-B; fresh<-B; fresh<-C; reused<-C], g_marshal their MarshalJSON, g_eq the 4x4 Equal matrix
+   (row-major, false where a decode failed) *)
+| CReuse (mode : N) (ta tb : bytes) (vb : view) (tc : bytes) (vc : view)
+         (g_vals : list (outcome value)) (g_marshal : list bytes) (g_eq : list bool)
 (* a handler outcome on a real service: published payload, parser's view of it, client-side parse *)
 | CResp (m : option rmeta) (h : handler_outcome) (g_payload : bytes) (v : view) (g : gparse)
 (* resprot.ParseResponse on an arbitrary text *)
@@ -107,6 +113,15 @@ Definition check_parse (data : bytes) (v : view) (g : gparse) : list N :=
   chk (outcome_eqb jq_eqb (gp_coll m) (gp_coll g)) 25 ++
   chk (outcome_eqb acc_eqb (gp_access m) (gp_access g)) 26.
 
+(* the fields of a Value that mean something for its type (RID of a non-reference and Inner of a
+   non-data value are left-overs that Equal and MarshalJSON never read) *)
+Definition value_proj_eqb (a b : value) : bool :=
+  vtype_eqb (v_type a) (v_type b) && beq (v_raw a) (v_raw b) &&
+  match v_type a with
+  | TRef | TSoft => beq (v_rid a) (v_rid b)
+  | TData => beq (v_inner a) (v_inner b)
+  | _ => true
+  end.
 Definition nth_o {A} (l : list A) (n : nat) (d : A) : A := nth n l d.
 
 (* field codes: 1 json_escape 2 utf8_valid 3 escape/unescape back 4 json_unescape
@@ -152,6 +167,17 @@ Definition check_case (c : ccase) : list N :=
     chk (list_eqb (outcome_eqb value_eqb) md g_direct) 14 ++
     chk (list_eqb (outcome_eqb value_eqb) mv g_via) 15 ++
     chk (list_eqb Bool.eqb eqm g_eq) 16
+  | CReuse mode ta tb vb tc vc g_vals g_marshal g_eq =>
+    (* the model: decoding is a function of the text only *)
+    let mb := value_unmarshal tb vb in
+    let mc := value_unmarshal tc vc in
+    let ms := [mb; mb; mc; mc] in
+    let eqm := flat_map (fun a => map (fun b =>
+                 match a, b with Ok x, Ok y => value_equal x y | _, _ => false end) ms) ms in
+    chk (wf_view tb vb && wf_view tc vc) 13 ++
+    chk (list_eqb (outcome_eqb value_proj_eqb) ms g_vals) 27 ++
+    chk (outcome_eqb value_eqb mb (nth_o g_vals 1 Panic) && outcome_eqb value_eqb mc (nth_o g_vals 2 Panic)) 14 ++
+    chk (list_eqb Bool.eqb eqm g_eq) 28
   | CResp m h g_payload v g =>
     chk (beq (published m h) g_payload) 17 ++
     chk (view_eqb (view_of (published_ast m h)) v) 18 ++
@@ -172,6 +198,8 @@ Definition check_case (c : ccase) : list N :=
    12 the response is not of the class the handler's outcome calls for
    13 the decoded result / resource id / error is not what the handler supplied
    14 a value re-parsed from its own MarshalJSON is not Equal to itself
+   16 a store.Value decoded into a previously used Value / slice element / map entry differs observably
+      (type, meaningful payload, MarshalJSON, Equal against others) from a fresh decode of the same text
    15 the error object in the published payload is not the handler's error field for field (code, message, data) *)
 Definition okv (o : outcome value) : option value := match o with Ok x => Some x | _ => None end.
 Definition oclass_eqb (a : option rclass) (b : rclass) : bool :=
@@ -208,6 +236,26 @@ Definition viol_case (c : ccase) : list N :=
           | _, _ => false
           end) idx) idx then [] else [10]) ++
     (if forallb (fun i => negb (okd i) || nth_o g_reparse i false) idx then [] else [14])
+  | CReuse mode ta tb vb tc vc g_vals g_marshal g_eq =>
+    let e (i j : nat) := nth_o g_eq (i * 4 + j) false in
+    let idx := [0; 1; 2; 3]%nat in
+    let fr (i : nat) : nat := match i with O => 1 | 1 => 1 | _ => 2 end%nat in   (* the fresh decode of the same text *)
+    let gv (i : nat) := nth_o g_vals i Err in
+    let okd (i : nat) := isSome (okv (gv i)) in
+    (* 16: a reused Value is observably the fresh decode of the same text *)
+    (if forallb (fun i => outcome_eqb value_proj_eqb (gv i) (gv (fr i)) &&
+                          (negb (okd i) || beq (nth_o g_marshal i []) (nth_o g_marshal (fr i) []))) idx &&
+        forallb (fun i => forallb (fun j => Bool.eqb (e i j) (e (fr i) (fr j))) idx) idx
+     then [] else [16]) ++
+    (if forallb (fun i => negb (okd i) || e i i) idx then [] else [7]) ++
+    (if forallb (fun i => forallb (fun j => Bool.eqb (e i j) (e j i)) idx) idx then [] else [8]) ++
+    (if forallb (fun i => forallb (fun j => forallb (fun k => negb (e i j && e j k) || e i k) idx) idx) idx then [] else [9]) ++
+    (if forallb (fun i => forallb (fun j =>
+          negb (e i j) ||
+          match okv (gv i), okv (gv j) with
+          | Some a, Some b => beq (canon_text a) (canon_text b)
+          | _, _ => false
+          end) idx) idx then [] else [10])
   | CResp m h g_payload v g =>
     let r := gp_resp g in
     (if exactly_one (gp_has g) then [] else [11]) ++
